@@ -7,6 +7,10 @@ HERE = os.path.dirname(os.path.dirname(os.path.abspath(__file__)))
 
 # id -> (engine, technique, level text, level note, design ref)
 CHECKS = {
+    "C18": ("XH", "CrossHair-driven enumeration (z3 choice variables: column permutation, leading blank rows, table offset, end rule, ladder, missing optional column) with native sweeps over row contents; "
+            "stub worksheet; oracle = converter applied at the reported origin + independent reference locator + filled-in twin for ladder sheets",
+            "bounded exhaustive exploration with exhaustion certificate over 6 rule sets (plain, optional, external, ranged dict/set, two classes per row), <= 5-6 columns in sampled-permutation order, "
+            "<= 3 data rows, table offsets 0/1/23 columns", "structural property: the solver enumerates; worksheet stubbed by a cell grid", "DESIGN.md 3/C18"),
     "C11": ("XH", "CrossHair-driven enumeration (z3 choice variables for container skeleton / nesting offset) with native sweeps over every string length around the wrapping thresholds; "
             "json.loads / ast.literal_eval read-back",
             "bounded exhaustive exploration with exhaustion certificate: 10 container skeletons x nesting offsets 0/2/4 x every length 0..215 of the varying element, threshold-adjacent length pairs, "
